@@ -725,7 +725,7 @@ int main(int argc, char** argv)
     O = &oracle;
     Rng g(seed);
     region.rng = Rng(seed ^ 0x55aa);
-    region.policy = int(g.below(3));
+    region.policy = int((g.below(3), seed % 3)); // consecutive seeds cycle through the placement policies (ascending adjacent, gaps, descending)
     if (argc > 4)
         region.fail_at = std::atol(argv[4]);
     bad_mode = argc > 5 && std::string(argv[5]) == "bad";
